@@ -169,3 +169,13 @@ pub fn process(ledger: &mut Vec<Acct>, entry: Entry, program_id: &Pubkey, metas:
 
 /// `LastRestartSlot` sysvar value served by the stub.
 pub static LAST_RESTART_SLOT: AtomicU64 = AtomicU64::new(0);
+
+/// A leaked, 16-aligned `AccountInfo<'static>` for direct use with Anchor account wrappers
+/// (`AccountLoader::try_from`, `Account::try_from`) outside an instruction.
+pub fn leak_info(a: &Acct, is_signer: bool, is_writable: bool) -> AccountInfo<'static> {
+    let key: &'static Pubkey = Box::leak(Box::new(a.key));
+    let owner: &'static Pubkey = Box::leak(Box::new(a.owner));
+    let lamports: &'static mut u64 = Box::leak(Box::new(a.lamports));
+    let (d, _) = aligned_copy(&a.data);
+    AccountInfo::new(key, is_signer, is_writable, lamports, d, owner, a.executable, 0)
+}
